@@ -22,7 +22,7 @@ ASSUMPTIONS = [
     "Covout is called the way ProgramSet.get_outcomes calls it: coverage dict of length-1 float arrays with values in [0,1]",
     "probe mode uses outcomes with pairwise distinct |outcome-baseline| (rank-preserving perturbations); ties are covered by the laws mode only",
 ]
-BUDGET = {"quick": 40000, "thorough": 1500000}
+BUDGET = {"quick": 40000, "thorough": 320000}  # thorough = 8x quick: a depth that was run to completion, quiet, at seed 1 (deterministic given the seed)
 TIME_CAP = {"quick": 60, "thorough": 1500}
 TOL = 1e-9
 
